@@ -2,4 +2,9 @@ SPECIFICATION Spec
 INVARIANT OrderIndependent
 INVARIANT CnOnlyWithoutSan
 INVARIANT WildcardOneLabel
+INVARIANT OptAgrees
+INVARIANT NarrowerNeverMore
+INVARIANT IllegalMatchesNothing
+INVARIANT OptOrderIndependent
+INVARIANT OptCnOnlyWithoutSan
 CHECK_DEADLOCK FALSE
